@@ -173,7 +173,7 @@ Fixpoint increasing_b (l : list tv) : bool :=
   end.
 Definition valid_b (r : raw) (start : tv) : bool :=
   match r with
-  | R1 (t0 :: _ as ts) =>
+  | R1 ((t0 :: _) as ts) =>
       forallb tv_finite ts && tv_finite start && negb (tv_is0 t0) && negb (tv_ge start t0) && increasing_b ts
   | _ => false
   end.
@@ -348,6 +348,13 @@ Fixpoint list_eqb {X} (e : X -> X -> bool) (a b : list X) : bool :=
   | x :: a', y :: b' => e x y && list_eqb e a' b'
   | _, _ => false
   end.
+
+(* short constructors for the harness-written case files *)
+Definition mkdet (sc ph ch px sg im : option Z) : det Z :=
+  {| scene := sc; photon := ph; charge := ch; pixel := px; signal := sg; image := im |}.
+Definition mkobs (t st ab : tv) (cnt : Z) (f l : bool) (b e : det Z) : observation Z :=
+  {| o_clock := {| c_time := t; c_step := st; c_abs := ab; c_count := cnt; c_first := f; c_last := l |};
+     o_begin := b; o_end := e |}.
 
 (* what the implementation did: raised at [stage] after [executed] model calls, or ran *)
 Inductive ioutcome := IRejected (stage : Z) (executed : Z) | IRan (obs : list (observation Z)).
